@@ -64,7 +64,7 @@ def determinism(argv):
     t0 = time.time()
     for prop in props:
         batches = ["nofault"] if prop == "C20" else ["nofault", "fault"]
-        nn = n if prop not in ("C06", "C20") else max(200, n // 4)
+        nn = n if prop not in ("C06", "C20") else max(200, n // 2)
         for batch in batches:
             shas = {}
             for hs, workers in (("0", 16), ("4242", 4), ("99", 1 if nn <= 600 else 7)):
